@@ -172,7 +172,7 @@ class ClassInfo:
 class Program:
     """All modules of <root>/src/pydsol/core."""
 
-    def __init__(self, root='/repo'):
+    def __init__(self, root='/repo', normalize=True):
         self.root = root
         self.pkg = os.path.join(root, PKG_REL)
         self.modules = {}
@@ -189,6 +189,16 @@ class Program:
             except SyntaxError as e:
                 raise AnalysisError(f'{p} does not parse: {e}')
             self.modules[name] = m
+        # E0: constructs introduced under names the rules do not know (extracted helpers, named constants, temporaries) are
+        # rewritten in terms of the known ones before anything is analysed (pdsa/normalize.py; set PDSA_NO_NORMALIZE=1 to see raw)
+        self.normalisation = []
+        if normalize and os.environ.get('PDSA_NO_NORMALIZE') != '1':
+            from . import normalize as _norm
+            try:
+                self.normalisation = _norm.run({n: m.tree for n, m in self.modules.items()})
+            except RecursionError as e:                               # pragma: no cover
+                raise AnalysisError(f'normalisation failed: {e}')
+        for name, m in self.modules.items():
             for n in m.tree.body:
                 if isinstance(n, ast.ClassDef):
                     if n.name in self.classes:
